@@ -182,4 +182,48 @@ theorem createRotation_uses_source (o : Ori) (conv : List Char) (sf rh : Bool) (
           decide_eq_true_eq, List.length_cons, List.length_nil, if_true, List.getD_cons_zero, List.getD_cons_succ]
       · simp [bind, Except.bind]
 
+
+/-! ## the two normalisers -/
+
+/-- `_normalize_pixel_index_convention` from the regenerated rules: length, enum members, exactly one letter of each exclusive pair -/
+def normConventionSrc (c : List Char) : Except ErrKind (Char × Char) :=
+  if c.length ≠ Gen.conventionLength then .error .value
+  else if !(c.all fun d => Gen.pixelIndexDirections.contains d) then .error .value
+  else if !(Gen.conventionExclusivePairs.all fun p => c.contains p.1 != c.contains p.2) then .error .value
+  else match c with
+    | [a, b] => .ok (a, b)
+    | _ => .error .value
+
+theorem normConvention_uses_source (c : List Char) : normConvention c = normConventionSrc c := by
+  unfold normConvention normConventionSrc
+  rcases c with _ | ⟨a, _ | ⟨b, _ | ⟨d, t⟩⟩⟩
+  · rfl
+  · rfl
+  · simp only [List.length_cons, List.length_nil, Gen.conventionLength, ne_eq, not_true_eq_false, if_false, List.all_cons, List.all_nil,
+      Bool.and_true, Gen.conventionExclusivePairs]
+    cases h1 : Gen.pixelIndexDirections.contains a <;> cases h2 : Gen.pixelIndexDirections.contains b <;>
+      cases h3 : ([a, b].contains 'L' != [a, b].contains 'R') <;> cases h4 : ([a, b].contains 'U' != [a, b].contains 'D') <;> simp
+  · simp [Gen.conventionLength]
+
+/-- `_normalize_patient_orientation` from the regenerated rules -/
+def normOrientationSrc (c : List Char) : Except ErrKind (List Char) :=
+  if c.length ≠ Gen.orientationLength then .error .value
+  else if !(c.all fun d => Gen.bipedValues.contains d) then .error .value
+  else if !(Gen.orientationExclusivePairs.all fun p => c.contains p.1 != c.contains p.2) then .error .value
+  else .ok c
+
+theorem normOrientation_uses_source (c : List Char) : normOrientation c = normOrientationSrc c := by
+  unfold normOrientation normOrientationSrc
+  rcases c with _ | ⟨a, _ | ⟨b, _ | ⟨d, _ | ⟨e, t⟩⟩⟩⟩
+  · rfl
+  · rfl
+  · rfl
+  · simp only [List.length_cons, List.length_nil, Gen.orientationLength, ne_eq, not_true_eq_false, if_false, Gen.orientationExclusivePairs,
+      List.all_cons, List.all_nil, Bool.and_true]
+    cases h0 : ([a, b, d].all fun x => Gen.bipedValues.contains x) <;>
+      cases h3 : ([a, b, d].contains 'L' != [a, b, d].contains 'R') <;> cases h4 : ([a, b, d].contains 'A' != [a, b, d].contains 'P') <;>
+      cases h5 : ([a, b, d].contains 'F' != [a, b, d].contains 'H') <;> simp <;>
+      (by_cases ha : a ∈ Gen.bipedValues <;> by_cases hb : b ∈ Gen.bipedValues <;> by_cases hd : d ∈ Gen.bipedValues <;> simp [ha, hb, hd])
+  · simp [Gen.orientationLength]
+
 end HdVerif.Affine
